@@ -31,14 +31,19 @@ def trace_conflict(ri, rm, verdict):
     """The Fiat-Shamir challenges drawn by the implementation (recorded by the verif-hooks instrumentation)
     against those of the model: they must agree item by item (label and value) on their common prefix. The
     implementation may stop early when it rejects, the model has none when the bytes do not decode, and a verifier
-    that draws fewer or more challenges at the end (e.g. one that does not batch its equations) is not wrong by
-    that alone — what it does draw must be what the protocol says."""
+    that draws fewer challenges at the end (e.g. one that does not batch its equations) is not wrong by that alone —
+    what it does draw must be what the protocol says, and no more than that."""
     ti, tm = trace_of(ri), trace_of(rm)
     if ti is None or tm is None:
         return None
     for k, (a, b) in enumerate(zip(ti, tm)):
         if a != b:
             return f"challenge #{k}: impl {a[:24]}.. model {b[:24]}.."
+    # the protocol fixes how many challenges one verification draws: a verifier may stop early, but one that goes on
+    # drawing after the protocol's last challenge (a second pass over the proof with another transcript, say) is doing
+    # something the protocol does not describe
+    if tm and len(ti) > len(tm):
+        return f"{len(ti)} challenges drawn, the protocol has {len(tm)}: extra {ti[len(tm)][:24]}.."
     return None
 
 
@@ -89,6 +94,9 @@ def run_correspondence(pid, P, ctx, stages=None):
         model, e2 = run_tool([ctx["ZKMODEL"]], stage, ctx["jobs"])
         if e1:
             stats["notes"].append("zkh run: " + e1[:300])
+            if "STDERR-OUTPUT" in e1:
+                disagreements.append({"kind": "stderr-output", "line": "zkh run (this stage's ops)", "impl": e1[:600], "model": "",
+                                      "note": "the library wrote to the standard error stream while serving these ops (a debugging trace left in?)"})
         if e2:
             stats["notes"].append("zkmodel: " + e2[:300])
         nxt = []
